@@ -225,6 +225,25 @@ def more_definitions():
             want = np.asarray((K.sma if mt == 0 else K.wma)(close, p), dtype=float)
             if not indic.close_enough(got[p - 1:], want[p - 1:], 1e-9):
                 return f'ma(matype={mt}, period={p}) on {n} candles: {got[p - 1:]} but the window definition gives {want[p - 1:]}'
+    # Hull moving average HMA(n) = WMA(2 WMA(n/2) - WMA(n), sqrt(n)) with integer halves and roots, for periods of every residue mod 4
+    c = indic.candles(160, 12, 'random')
+    close = c[:, 2].tolist()
+
+    def wma_ref(xs, p_):
+        den = p_ * (p_ + 1) / 2
+        return [float('nan') if j < p_ - 1 else sum((k + 1) * xs[j - p_ + 1 + k] for k in range(p_)) / den for j in range(len(xs))]
+    for p in (5, 7, 9, 11, 14, 15, 16, 19, 23):
+        half, root = int(p / 2), int(math.sqrt(p))
+        a_, b_ = wma_ref(close, half), wma_ref(close, p)
+        raw = [2 * x - y for x, y in zip(a_, b_)]
+        lo = p + root
+        want = np.asarray(wma_ref(raw[p - 1:], root), dtype=float)
+        got = np.asarray(ta.hma(c, period=p, sequential=True), dtype=float)
+        if not indic.close_enough(got[lo:], want[lo - (p - 1):], 1e-7):
+            return f'hma(period={p}): {got[-1]} but the textbook definition (half length {half}, root length {root}) gives {want[-1]}'
+        got_ma = np.asarray(ta.ma(c, period=p, matype=10, sequential=True), dtype=float)
+        if not indic.close_enough(got_ma[lo:], want[lo - (p - 1):], 1e-7):
+            return f'ma(matype=10, period={p}) differs from the textbook Hull moving average'
     # Money Flow Index on series with exact ties: a candle whose typical price is unchanged counts for neither flow
     for kind in ('random', 'ties'):
         c = indic.candles(120, 3, kind)
